@@ -838,3 +838,194 @@ Theorem independent_nodrop g h b :
 Proof.
   intros I. destruct (exec0_cfgd false g h b I) as ([X|[(_ & X)|X]] & _); auto.
 Qed.
+
+(* ------------------------------------------------------------------ events of other contexts do not matter *)
+Section Foreign.
+  Variable cfg : config.
+  Variable k0 cx w : nat.       (* the run's cell, context and watcher *)
+  Notation ev := (eval cfg (Some k0) cx).
+
+  Definition own (x : VmRun.ev) : bool :=
+    match x with Cancel c => Nat.eqb c cx | Fire v => Nat.eqb v w end.
+
+  Definition erel (e1 e2 : env) : Prop :=
+    is_cancelled e1 cx = is_cancelled e2 cx /\ cell_set e1 k0 = cell_set e2 k0 /\
+    mem w (fired e1) = mem w (fired e2) /\
+    nth_error (watchers e1) w = Some (cx, k0) /\ nth_error (watchers e2) w = Some (cx, k0) /\
+    (forall v c, nth_error (watchers e1) v = Some (c, k0) -> v = w).
+
+  Lemma do_ev_erel x e1 e2 : erel e1 e2 -> erel (do_ev x e1) (if own x then do_ev x e2 else e2).
+  Proof.
+    intros (A & B & C & D & E & F). destruct x as [c|v]; cbn [own do_ev].
+    - destruct (Nat.eqb_spec c cx) as [->|NE].
+      + unfold erel, do_cancel, is_cancelled, cell_set in *. cbn [cancelled setcells fired watchers].
+        rewrite !mem_cons, Nat.eqb_refl. cbn [orb]. repeat split; auto.
+      + unfold erel, do_cancel, is_cancelled, cell_set in *. cbn [cancelled setcells fired watchers].
+        rewrite mem_cons. destruct (Nat.eqb_spec cx c); [congruence|]. cbn [orb]. repeat split; auto.
+    - destruct (Nat.eqb_spec v w) as [->|NE].
+      + unfold do_fire. rewrite D, E. rewrite A, C.
+        destruct (is_cancelled e2 cx && negb (mem w (fired e2))).
+        * unfold erel, is_cancelled, cell_set in *. cbn [cancelled setcells fired watchers].
+          rewrite !mem_cons, !Nat.eqb_refl. cbn [orb]. repeat split; auto.
+        * repeat split; auto.
+      + unfold do_fire. destruct (nth_error (watchers e1) v) as [[c k]|] eqn:N; [|repeat split; auto].
+        destruct (is_cancelled e1 c && negb (mem v (fired e1))); [|repeat split; auto].
+        assert (K : k <> k0) by (intros ->; apply NE; eapply F; eauto).
+        unfold erel, is_cancelled, cell_set in *. cbn [cancelled setcells fired watchers]. rewrite !mem_cons.
+        destruct (Nat.eqb_spec k0 k); [congruence|]. destruct (Nat.eqb_spec w v); [congruence|]. cbn [orb].
+        repeat split; auto.
+  Qed.
+
+  Lemma do_evs_erel xs : forall e1 e2, erel e1 e2 -> erel (do_evs xs e1) (do_evs (filter own xs) e2).
+  Proof.
+    unfold do_evs. induction xs as [|x xs IH]; intros e1 e2 R; cbn; auto.
+    pose proof (do_ev_erel x e1 e2 R) as R'. destruct (own x); cbn; apply IH; auto.
+  Qed.
+
+  Definition srel (s1 s2 : st) : Prop :=
+    sG s1 = sG s2 /\ sH s1 = sH s2 /\ sFP s1 = sFP s2 /\ erel (sE s1) (sE s2) /\
+    sGates s2 = map (filter own) (sGates s1).
+  Definition same (p1 p2 : res * st) : Prop := fst p1 = fst p2 /\ srel (snd p1) (snd p2).
+
+  Ltac s5 := split; [|split; [|split; [|split]]]; cbn; auto; try congruence.
+
+  Lemma polled_srel s1 s2 : srel s1 s2 -> polled (Some k0) s1 = polled (Some k0) s2.
+  Proof. intros (_ & _ & _ & (_ & B & _) & _). unfold polled. auto. Qed.
+  Lemma halt_res_srel s1 s2 : srel s1 s2 -> halt_res cx s1 = halt_res cx s2.
+  Proof. intros (_ & _ & _ & (A & _) & _). unfold halt_res. rewrite A. reflexivity. Qed.
+
+  Lemma push_val_same z s1 s2 : srel s1 s2 -> same (push_val cfg z s1) (push_val cfg z s2).
+  Proof.
+    intros R. pose proof R as (A & B & C & D & E). unfold push_val. rewrite B.
+    destruct (sH s2 <? MaxStack); split; cbn; auto.
+    - s5.
+    - destruct (push_guard cfg); auto. s5.
+  Qed.
+
+  Lemma pop1_same s1 s2 : srel s1 s2 ->
+    match pop1 s1, pop1 s2 with Some t1, Some t2 => srel t1 t2 | None, None => True | _, _ => False end.
+  Proof.
+    intros R. pose proof R as (A & B & C & D & E). unfold pop1. rewrite B.
+    destruct ((sH s2 =? 0) || (MaxStack <? sH s2)); auto. s5.
+  Qed.
+
+  Lemma resume_same bh bf s1 s2 : srel s1 s2 ->
+    fst (resume bh bf s1) = fst (resume bh bf s2) /\ srel (snd (resume bh bf s1)) (snd (resume bh bf s2)).
+  Proof.
+    intros R. pose proof R as (A & B & C & D & E). unfold resume. rewrite B.
+    destruct (bh <? sH s2); [destruct (MaxStack <? sH s2)|]; cbn; split; auto; s5.
+  Qed.
+
+  Lemma spin_same gs : forall s1 s2, srel s1 s2 ->
+    same (spin (Some k0) cx gs s1) (spin (Some k0) cx (map (filter own) gs) s2).
+  Proof.
+    induction gs as [|xs gs IH]; intros s1 s2 R; cbn [spin map];
+      rewrite (polled_srel _ _ R); destruct (polled (Some k0) s2).
+    - split; cbn; [apply halt_res_srel; auto|]. destruct R as (A & B & C & D & E). s5.
+    - split; cbn; auto. destruct R as (A & B & C & D & E). s5.
+    - split; cbn; [apply halt_res_srel; auto|]. destruct R as (A & B & C & D & E). s5.
+    - apply IH. destruct R as (A & B & C & D & E). split; [|split; [|split; [|split]]]; cbn; auto.
+      apply do_evs_erel; auto.
+  Qed.
+
+  Lemma call_fn_same (body : st -> res * st) s1 s2 :
+    srel s1 s2 -> (forall t1 t2, srel t1 t2 -> same (body t1) (body t2)) ->
+    same (call_fn (Some k0) cx body s1) (call_fn (Some k0) cx body s2).
+  Proof.
+    intros R IH. pose proof R as (A & B & C & D & E). unfold call_fn. rewrite B, C.
+    assert (Q : srel (setHF s1 (sH s2) (S (sFP s2))) (setHF s2 (sH s2) (S (sFP s2))))
+      by s5.
+    destruct (MaxFrames <=? S (sFP s2)).
+    - destruct (resume_same (sH s2) (sFP s2) _ _ Q) as [X Y].
+      destruct (resume (sH s2) (sFP s2) (setHF s1 (sH s2) (S (sFP s2)))) as [p1 t1].
+      destruct (resume (sH s2) (sFP s2) (setHF s2 (sH s2) (S (sFP s2)))) as [p2 t2].
+      cbn in X, Y. subst. split; auto.
+    - destruct (IH _ _ Q) as [X Y].
+      destruct (body (setHF s1 (sH s2) (S (sFP s2)))) as [r1 t1].
+      destruct (body (setHF s2 (sH s2) (S (sFP s2)))) as [r2 t2]. cbn in X, Y. subst r2.
+      destruct (resume_same (sH s2) (sFP s2) _ _ Y) as [X2 Y2].
+      destruct (resume (sH s2) (sFP s2) t1) as [p1 u1]. destruct (resume (sH s2) (sFP s2) t2) as [p2 u2].
+      cbn in X2, Y2. subst p2. rewrite (polled_srel _ _ Y), (halt_res_srel _ _ Y).
+      destruct r1; try (split; cbn; auto; fail).
+      destruct (polled (Some k0) t2); split; cbn; auto.
+      destruct Y as (Y1 & Y2' & Y3 & Y4 & Y5). s5.
+  Qed.
+
+  Lemma eval_same e : forall s1 s2, srel s1 s2 -> same (ev e s1) (ev e s2).
+  Proof.
+    induction e; intros s1 s2 R; cbn [eval]; unfold poll_then.
+    - rewrite (polled_srel _ _ R), (halt_res_srel _ _ R). destruct (polled (Some k0) s2); [split; auto|apply push_val_same; auto].
+    - rewrite (polled_srel _ _ R), (halt_res_srel _ _ R). destruct (polled (Some k0) s2); [split; auto|].
+      replace (sG s1) with (sG s2) by (symmetry; apply R). apply push_val_same; auto.
+    - rewrite (polled_srel _ _ R), (halt_res_srel _ _ R). destruct (polled (Some k0) s2); [split; auto|].
+      apply push_val_same. destruct R as (A & B & C & D & E). s5.
+    - destruct (IHe1 _ _ R) as [X Y]. destruct (ev e1 s1) as [r1 t1]. destruct (ev e1 s2) as [r2 t2]. cbn in X, Y. subst r2.
+      destruct r1; try (split; auto; fail).
+      destruct (IHe2 _ _ Y) as [X2 Y2]. destruct (ev e2 t1) as [q1 u1]. destruct (ev e2 t2) as [q2 u2]. cbn in X2, Y2. subst q2.
+      destruct q1; try (split; auto; fail).
+      rewrite (polled_srel _ _ Y2), (halt_res_srel _ _ Y2). destruct (polled (Some k0) u2); [split; auto|].
+      pose proof (pop1_same _ _ Y2) as P. destruct (pop1 u1) as [v1|], (pop1 u2) as [v2|]; try contradiction; [|split; auto].
+      pose proof (pop1_same _ _ P) as P2. destruct (pop1 v1) as [x1|], (pop1 v2) as [x2|]; try contradiction; [|split; auto].
+      apply push_val_same; auto.
+    - destruct (IHe1 _ _ R) as [X Y]. destruct (ev e1 s1) as [r1 t1]. destruct (ev e1 s2) as [r2 t2]. cbn in X, Y. subst r2.
+      destruct r1; try (split; auto; fail).
+      rewrite (polled_srel _ _ Y), (halt_res_srel _ _ Y). destruct (polled (Some k0) t2); [split; auto|].
+      pose proof (pop1_same _ _ Y) as P. destruct (pop1 t1) as [v1|], (pop1 t2) as [v2|]; try contradiction; [|split; auto].
+      apply IHe2; auto.
+    - rewrite (polled_srel _ _ R), (halt_res_srel _ _ R). destruct (polled (Some k0) s2); [split; auto|].
+      pose proof R as (A & B & C & D & E). rewrite B.
+      destruct (sH s2 + n <=? MaxStack).
+      + assert (Q : srel (setH s1 (sH s2 + n)) (setH s2 (sH s2 + n))) by s5.
+        destruct (IHe _ _ Q) as [X Y]. destruct (ev e (setH s1 (sH s2 + n))) as [r1 t1].
+        destruct (ev e (setH s2 (sH s2 + n))) as [r2 t2]. cbn in X, Y. subst r2.
+        destruct r1; try (split; auto; fail).
+        rewrite (polled_srel _ _ Y), (halt_res_srel _ _ Y). destruct (polled (Some k0) t2); [split; auto|].
+        apply push_val_same. destruct Y as (Y1 & Y2 & Y3 & Y4 & Y5). s5.
+      + split; cbn; auto. s5.
+    - rewrite (polled_srel _ _ R), (halt_res_srel _ _ R). destruct (polled (Some k0) s2); [split; auto|].
+      destruct (call_fn_same (ev e) s1 s2 R IHe) as [X Y].
+      destruct (call_fn (Some k0) cx (ev e) s1) as [r1 t1]. destruct (call_fn (Some k0) cx (ev e) s2) as [r2 t2].
+      cbn in X, Y. subst r2. destruct r1; try (split; auto; fail). apply push_val_same; auto.
+    - rewrite (polled_srel _ _ R), (halt_res_srel _ _ R). destruct (polled (Some k0) s2); split; auto.
+    - rewrite (polled_srel _ _ R), (halt_res_srel _ _ R). destruct (polled (Some k0) s2); split; auto.
+    - rewrite (polled_srel _ _ R), (halt_res_srel _ _ R). destruct (polled (Some k0) s2); [split; auto|].
+      apply push_val_same. destruct R as (A & B & C & D & E). unfold take_gate. rewrite E.
+      destruct (sGates s1) as [|xs r] eqn:EG; cbn [map]; [s5; rewrite EG; auto|].
+      split; [|split; [|split; [|split]]]; cbn; auto. apply do_evs_erel; auto.
+    - destruct R as (A & B & C & D & E). rewrite E. apply spin_same. s5.
+  Qed.
+End Foreign.
+
+(* on a VM created for the invocation, deleting every event that is not the cancellation of the invocation's own
+   context or the firing of its own watcher changes nothing *)
+Definition own_gates (e : env) (i : inv) : list (list VmRun.ev) :=
+  map (filter (own (ictx i) (length (watchers e)))) (igates i).
+
+Theorem foreign_events_irrelevant d e g i :
+  env_ok e ->
+  fresh_of d e g i = fresh_of d e g (mkInv (iapi i) (ibody i) (ictx i) (own_gates e i)).
+Proof.
+  intros [EO1 EO2]. unfold fresh_of.
+  rewrite (run_inv_eq d e g (mkVm None false 0 0 0 true) i eq_refl (fun _ => eq_refl)).
+  rewrite (run_inv_eq d e g (mkVm None false 0 0 0 true) (mkInv (iapi i) (ibody i) (ictx i) (own_gates e i)) eq_refl (fun _ => eq_refl)).
+  set (s1 := start_st e g _ _ i). set (s2 := start_st e g _ _ _).
+  assert (R : srel (ncells e) (ictx i) (length (watchers e)) s1 s2).
+  { unfold s1, s2, start_st, base_h, base_f. unfold srel, erel, env1, arm.
+    cbn [sG sE sH sFP sGates iapi ibody ictx igates H FP startCount watchers cancelled setcells fired ncells].
+    split; [reflexivity|]. split; [reflexivity|]. split; [reflexivity|]. split; [|reflexivity].
+    split; [reflexivity|]. split; [reflexivity|]. split; [reflexivity|].
+    assert (N : nth_error (watchers e ++ [(ictx i, ncells e)]) (length (watchers e)) = Some (ictx i, ncells e)).
+    { rewrite nth_error_app2 by lia. rewrite Nat.sub_diag. reflexivity. }
+    split; [exact N|]. split; [exact N|].
+    intros v c X. destruct (Nat.lt_ge_cases v (length (watchers e))) as [L|L].
+    - rewrite nth_error_app1 in X by auto. apply EO1 in X. lia.
+    - assert (L2 : v < length (watchers e ++ [(ictx i, ncells e)])) by (apply nth_error_Some; congruence).
+      rewrite app_length in L2. cbn in L2. lia. }
+  assert (S : same (ncells e) (ictx i) (length (watchers e)) (body_run d e i s1)
+                   (body_run d e (mkInv (iapi i) (ibody i) (ictx i) (own_gates e i)) s2)).
+  { unfold body_run. cbn [iapi ibody ictx]. destruct (iapi i).
+    - apply eval_same; auto. - apply eval_same; auto.
+    - apply call_fn_same; auto. intros t1 t2 T. apply eval_same; auto. }
+  destruct S as [S1 _].
+  destruct (body_run d e i s1) as [r1 t1]. destruct (body_run d e _ s2) as [r2 t2]. cbn in S1. subst. reflexivity.
+Qed.
